@@ -536,6 +536,10 @@ def holdsC07 (prio : List HookDef) (wet : Bool) (trees : List (List Meta)) (tick
             if !g.done && !over then st := st.bad "no_signal_before_done.done"
           | none => pure ()
         let _ := e
+    -- C17 (return value) / C07 (async_iff_outstanding): run() answers ASYNC_PAUSED exactly when it leaves an invocation
+    -- outstanding - a kill cycle that waits for its hook must suspend the chain, one that does not must not
+    if t.ret == "ASYNC_PAUSED" && st.live.isNone then st := st.bad "return_async_iff_hook_outstanding.async_without_hook"
+    if t.ret != "ASYNC_PAUSED" && t.ret != "" && st.live.isSome then st := st.bad "return_async_iff_hook_outstanding"
   return st
 
 /-! ## one scenario -/
@@ -597,9 +601,14 @@ def handle (j : Json) : Json := Id.run do
     ((trees.getD i []).map (·.id)).filter fun id => later.any fun ids => !ids.contains id
   let runModel (mode : Nat) : List TickOut × Bool :=
     let rev := mode % 2 == 1
-    let tins : List TickIn := ((tins0.zip ((ticks.zip impls))).zipIdx).map fun (((top, _, roots), (tkS, im)), i) =>
+    let tins : List TickIn := ((tins0.zip ((ticks.zip impls))).zipIdx).map fun (((top, views, roots), (tkS, im)), i) =>
       let pre := jnat tkS "pre_adv_ms" * 1000000
-      let hint := if mode ≥ 2 then (touchedOf impls i ++ goneIds i).eraseDups else touchedOf impls i
+      -- an unpopulated candidate is skipped without leaving any event: inside its tie class it may have been anywhere, in
+      -- particular before the candidates the trace shows (modes 4, 5)
+      let silent := (views.filter fun v => v.info.populated == some false).map (·.id)
+      let hint :=
+        if mode ≥ 4 then (silent ++ touchedOf impls i ++ goneIds i).eraseDups
+        else if mode ≥ 2 then (touchedOf impls i ++ goneIds i).eraseDups else touchedOf impls i
       { top := top, roots := roots, freshDl := timeoutNs.map fun t => im.now0 - pre + t,
         rank := rankHint kcfg hint rev }
     let ok := (tins0.zip tins).all fun ((_, views, roots), ti) =>
@@ -612,7 +621,7 @@ def handle (j : Json) : Json := Id.run do
   let first := runModel 0
   let (outs, rankOk) := Id.run do
     if cmp first.1 then return first
-    for mode in [1, 2, 3] do
+    for mode in [1, 2, 3, 4, 5] do
       let r := runModel mode
       if cmp r.1 then return r
     return first
